@@ -2,6 +2,8 @@ import SeqIoModel.Proofs.FastaStream
 import SeqIoModel.Proofs.FastqStream
 import SeqIoModel.Proofs.FastaHistory
 import SeqIoModel.Proofs.FastqHistorySeek
+import SeqIoModel.Proofs.FastaSeekAfterFault
+import SeqIoModel.Proofs.FastqSeekAfterFault
 /-!
 # C05 – positions are true file coordinates and seeking to one restores the stream
 
@@ -54,5 +56,36 @@ theorem fastq_seek_restores_stream (inp : List UInt8) (cap : Nat) (hcap : 3 ≤ 
     (ops : List Fastq.Hist.Op) (hops : ∀ op ∈ ops, op.wf = true) :
     Fastq.Hist.accepted inp (Fastq.Hist.mkM inp cap pol script chunk) ops = true :=
   Fastq.fastq_history_accepted inp cap hcap pol hpol script hs chunk ops hops
+
+/-! ## "from any reader state": also from states left behind by source failures
+
+`fasta/fastq_seek_restores_stream` quantify over histories on failure-free sources.  The following two theorems
+remove that restriction for the state the seek starts from: `s` is the state after ANY history `ops` under ANY
+read script (failures of any kind at any call, interrupted reads), scripted seek failures and (FASTA) a policy that
+may refuse – possibly a state in which the last call returned an error.  If the seek to the position of item `i`
+then succeeds and the source does not fail any more, the following reads show exactly what sequential reading shows
+from item `i` on (records with their positions, the error of an invalid FASTQ group, end of input). -/
+
+theorem fasta_seek_restores_after_faults
+    (inp : List UInt8) (cap : Nat) (hcap : 3 ≤ cap) (pol : Pol) (hpol : Fasta.PolWfPos pol) (hgrow : Fasta.PolGrows pol)
+    (script : List ReadEv) (chunk : Nat) (seekFails : List (Nat × IoKind)) (ops : List Fasta.Hist.Op)
+    (i : Nat) (hi : i < (Fasta.Hist.items inp).recs.length) :
+    let s := Fasta.Hist.runMSt (Fasta.Hist.mkMStF inp cap pol script chunk seekFails) ops
+    let rc := (Fasta.Hist.items inp).recs[i]
+    ∀ r', Fasta.seek s.r rc.line rc.byte = (r', .ok ()) →
+      NoFail r'.br.src.script →
+      ∀ k, Fasta.runNexts k r' = ((Fasta.specObs inp).drop i ++ List.replicate k Fasta.Obs.none).take k :=
+  Fasta.fasta_seek_restores_after_faults inp cap hcap pol hpol hgrow script chunk seekFails ops i hi
+
+theorem fastq_seek_restores_after_faults
+    (inp : List UInt8) (cap : Nat) (hcap : 3 ≤ cap) (pol : Pol) (hgrow : Fastq.PolGrows pol)
+    (script : List ReadEv) (chunk : Nat) (seekFails : List (Nat × IoKind)) (ops : List Fastq.Hist.Op)
+    (hops : ∀ op ∈ ops, op.wf = true) (i : Nat) (hi : i < (Spec.fastq inp).length) :
+    let s := Fastq.Hist.runMSt (Fastq.Hist.mkM inp cap pol script chunk seekFails) ops
+    let it := (Spec.fastq inp)[i]
+    ∀ r', Fastq.seek s.r (Fastq.Hist.itemPos it).1 (Fastq.Hist.itemPos it).2 = (r', .ok ()) →
+      NoFail r'.br.src.script →
+      ∀ k, Fastq.runNexts k r' = ((Fastq.specObs inp).drop i ++ List.replicate k Fastq.Obs.none).take k :=
+  Fastq.fastq_seek_restores_after_faults inp cap hcap pol hgrow script chunk seekFails ops hops i hi
 
 end SeqIo.Thm.C05
